@@ -78,6 +78,13 @@ Theorem C03_canonical_rewritten : forall rc files lk o j b its fin,
   exists c0, new = Some (utf8_encode (render_items (retoken (rc_cfg rc) (render_items its fin) its [] c0) fin)).
 Proof. exact canonical_file_rewritten. Qed.
 
+(* ... and `retoken` changes nothing but statements, and those only by `add_ref`: same layout before every item,
+   same names, same other characters *)
+Theorem C03_only_statements_differ : forall cfg code its pre ctr,
+  Forall2 (fun x y => fst y = fst x /\ (snd y = snd x \/ exists e id, snd y = add_ref (snd x) e id))
+          its (retoken cfg code its pre ctr).
+Proof. exact retoken_shape. Qed.
+
 Theorem C03_message_style_token : forall cfg code pre1 it e id,
   cfg_structured cfg = false -> item_step cfg code pre1 it = Emit e -> add_ref it e id = add_token it id.
 Proof. exact add_ref_message. Qed.
@@ -121,3 +128,4 @@ Print Assumptions C03_insert_only.
 Print Assumptions C03_canonical_files.
 Print Assumptions C03_canonical_rewritten.
 Print Assumptions C03_message_style_token.
+Print Assumptions C03_only_statements_differ.
